@@ -478,7 +478,13 @@ def run(eng, R):
         R.ob("S-scipy", "%s.minimize:index map" % SC, ok, (f.file, f.lineno),
              "the position of a fixed parameter is its own index (row of stored values), the position of a free one is its index minus the number of fixed parameters before it "
              "(row of minimiser arguments), and exactly the free ones are handed to scipy in order")
-        ok = src.all_like("_nfix = 0", "_vals = []", "_sel = np.array(self._par_fixed, dtype=int)", "_dyn = np.zeros(shape=(2,) + %s.shape)" % PV, "_dyn[1] = %s" % PV)
+        ok = src.all_like("_nfix = 0", "_vals = []", "_sel = np.array(self._par_fixed, dtype=int)", "_dyn = np.zeros(shape=(2,) + _cur.shape)", "_dyn[1] = _cur") \
+            or src.all_like("_nfix = 0", "_vals = []", "_sel = np.array(self._par_fixed, dtype=int)", "_dyn = np.zeros(shape=(2,) + %s.shape)" % PV, "_dyn[1] = %s" % PV)
+        # (the stored values may be read into a local of their own for the table: what counts is that it is the current parameter values)
+        for ph in ("_cur",):
+            b = src._binding.get(ph)
+            if ok and b is not None:
+                ok = ok and _txt(common.resolve_local(f.node, ast.Name(id=b, ctx=ast.Load()))) == "self.parameter_values"
         R.ob("S-scipy", "%s.minimize:rows" % SC, ok, (f.file, f.lineno), "row 0 holds the minimiser arguments, row 1 the stored (fixed) values; the row selector is 1 exactly for fixed parameters")
         ok = src.all_like("def _fn(_args): _dyn[0, 0:-_nfix] = _args return self._func_wrapper_unpack_args(_dyn[_sel, _pos])", "_dyn[0, 0:-_nfix] = self._opt_result.x self._par_val = _dyn[_sel, _pos]")
         dyn = src._binding.get("_dyn")
